@@ -163,10 +163,11 @@ Definition embed_dep (hw : list hfile) (c : cmd) (sel : list string) : bool :=
   | _ => false
   end.
 
-(* the part of that class that matters along a same-command history: an embedded selected struct that is processed
-   AFTER the struct embedding it (K_embed_order) ... *)
 Fixpoint index_of (T : string) (l : list string) : nat :=
   match l with [] => 0 | x :: r => if x =? T then 0 else S (index_of T r) end.
+
+(* the part of that class that matters along a same-command history: an embedded selected struct that is processed
+   AFTER the struct embedding it (K_embed_order) ... *)
 Definition embed_after (hw : list hfile) (c : cmd) (sel : list string) : bool :=
   match c_sub c with
   | CNew => c_getset c &&
@@ -198,32 +199,55 @@ Definition same_content (a b : ofile) : bool :=
   odecls_eqb (of_decls a) (of_decls b) && str_list_eqb (of_imports a) (of_imports b) &&
   str_list_eqb (of_floating a) (of_floating b).
 
+(* a selected struct that is processed BEFORE a selected struct embedding it: the one-at-a-time run in the same
+   directory then sees its accessor interfaces, the run in a fresh copy does not (K_embed_order) *)
+Definition embed_before (hw : list hfile) (c : cmd) (sel : list string) : bool :=
+  match c_sub c with
+  | CNew => c_getset c &&
+            existsb (fun T => existsb (fun e => smem e sel && Nat.ltb (index_of e sel) (index_of T sel)) (struct_embeds hw T)) sel
+  | _ => false
+  end.
+
+Definition count_eq (x : string) (l : list string) : nat := List.length (filter (String.eqb x) l).
+
 Definition Pb_c08 (k : c08case) : bool :=
   let hw := q_hw (k_pkg k) in
   let singles := map snd (k_singles k) in
+  let oks := filter (fun o => negb (failed o)) singles in
   let sel := flat_map (fun c => c_types (fst c)) (k_singles k) in
-  let ok_all := negb (failed (k_aio_obs k)) && forallb (fun o => negb (failed o)) singles in
+  (* (0) the all-in-one run is refused only if some one-at-a-time run is.  (The converse is allowed for a type that the
+     all-in-one run skips silently -- an enum type without constants, a struct whose name starts with `_` -- and that
+     an explicit -type=T refuses: such a type contributes nothing to (1), which is taken over the successful runs.) *)
+  let p0 := implb (failed (k_aio_obs k)) (existsb failed singles) &&
+            implb (failed (k_sep_obs k)) (existsb failed singles) in
   (* (1) the all-in-one file = the one-at-a-time outputs, in order, under one header *)
   let p1 :=
+    failed (k_aio_obs k) ||
     match files_of (k_aio_obs k) with
     | [f] =>
-        odecls_eqb (of_decls f) (concat_decls singles) &&
-        set_eqb (of_imports f) (union_imports singles) &&
-        (stray_class (k_aio k) || str_list_eqb (of_floating f) (all_floating singles)) &&
+        odecls_eqb (of_decls f) (concat_decls oks) &&
+        set_eqb (of_imports f) (union_imports oks) &&
+        (* free comments: those of the sources; for rest one more before every `func init()` (K_merge_stray_comment) *)
+        (if stray_class (k_aio k)
+         then str_list_eqb (filter (fun n => negb (n =? "init")) (of_floating f)) (all_floating oks) &&
+              Nat.eqb (count_eq "init" (of_floating f)) (count_eq "init" (map od_name (concat_decls oks)))
+         else str_list_eqb (of_floating f) (all_floating oks)) &&
         (of_cmd f =? c_line (k_aio k))
-    | [] => match concat_decls singles with [] => true | _ => false end
+    | [] => match concat_decls oks with [] => true | _ => false end
     | _ => false
     end in
   (* (2) -sep writes exactly the one-at-a-time files *)
   let p2 :=
-    let sf := files_of (k_sep_obs k) in
-    let one := flat_map files_of singles in
-    Nat.eqb (List.length sf) (List.length one) &&
-    forallb (fun f => match lookup_key (of_name f) sf with Some g => same_content f g | None => false end) one in
+    failed (k_sep_obs k) ||
+    (let sf := files_of (k_sep_obs k) in
+     let one := flat_map files_of oks in
+     Nat.eqb (List.length sf) (List.length one) &&
+     forallb (fun f => match lookup_key (of_name f) sf with Some g => same_content f g | None => false end) one) in
   (* (3) what a type gets does not depend on earlier invocations having run (outside the K_embed_order class) *)
   let p3 :=
-    embed_dep hw (k_aio k) sel ||
-    forallb (fun p => match files_of (snd (fst p)), files_of (snd (snd p)) with
+    embed_before hw (k_aio k) sel ||
+    forallb (fun p => Bool.eqb (failed (snd (fst p))) (failed (snd (snd p))) &&
+                      match files_of (snd (fst p)), files_of (snd (snd p)) with
                       | [f], [g] => (of_name f =? of_name g) && same_content f g && N.eqb (of_body f) (of_body g)
                       | [], [] => true
                       | _, _ => false
@@ -235,14 +259,21 @@ Definition Pb_c08 (k : c08case) : bool :=
     | (c0, o0) :: r =>
         embed_dep hw c0 (c_types c0) ||
         forallb (fun co =>
-                   negb (failed (snd co)) && negb (failed o0) &&
+                   Bool.eqb (failed (snd co)) (failed o0) &&
                    Nat.eqb (List.length (files_of (snd co))) (List.length (files_of o0)) &&
                    forallb (fun f => match lookup_file (of_name f) (files_of (snd co)) with
                                      | Some g => same_content f g && N.eqb (of_body f) (of_body g) && (of_cmd g =? c_line (fst co))
                                      | None => false
                                      end) (files_of o0)) r
     end in
-  negb ok_all || (p1 && p2 && p3 && p4).
+  p0 && p1 && p2 && p3 && p4.
+
+(* how much of a case is exempt from (3) / (4) because of the open finding's class, for the evidence *)
+Definition exempt_c08 (k : c08case) : N :=
+  let hw := q_hw (k_pkg k) in
+  let sel := flat_map (fun c => c_types (fst c)) (k_singles k) in
+  ((if embed_before hw (k_aio k) sel then 1 else 0) +
+   2 * (match k_perms k with (c0, _) :: _ => if embed_dep hw c0 (c_types c0) then 1 else 0 | [] => 0 end))%N.
 
 (* 0 agree; 1 model and implementation differ while the property holds on the observation; 2 the property
    fails on the observation *)
@@ -368,6 +399,19 @@ Fixpoint Pb_points (c : cmd) (p : pkg) (pts : list hpoint) : bool :=
       end
   end.
 Definition Pb_c07 (k : c07case) : bool := Pb_points (h_cmd k) (pkg_of (h_pkg k)) (h_points k).
+
+(* number of points whose fresh-reference comparison is exempt (class of K_embed_order / K_aio_overlay_stale) *)
+Fixpoint skipped_points (c : cmd) (p : pkg) (pts : list hpoint) : N :=
+  match pts with
+  | [] => 0%N
+  | pt :: rest =>
+      let p' := match hp_edit pt with Some q => pkg_of q | None => p end in
+      ((if embed_after (p_hw p') c (selection p' c) ||
+           (negb (separate c) && embed_dep (p_hw p') c (selection p' c) &&
+            match hp_edit pt with Some _ => negb (hp_delete pt) | None => false end) then 1 else 0) +
+       skipped_points c p' rest)%N
+  end.
+Definition skipped_c07 (k : c07case) : N := skipped_points (h_cmd k) (pkg_of (h_pkg k)) (h_points k).
 
 Definition verdict_c07 (k : c07case) : N :=
   if negb (Pb_c07 k) then 2%N else if corr_c07 k then 0%N else 1%N.
